@@ -144,4 +144,170 @@ pub fn gen(seed: u64, n: usize, _tier: &str) -> Vec<Case> {
 
 pub fn run(c: &Case) -> Case { crate::c15::run(c) }
 
-pub fn judge(_c: &Case, _outs: &[Vec<Tok>]) -> Vec<String> { let _ = V::Null; vec![] }
+// ---------------------------------------------------------------- property oracle
+// Independent of the Coq model: reference streams (ID sets) and reference groups (cursor
+// semantics of Redis: start position, pending map id -> consumer), driven by the
+// implementation's replies.  Violations that fall into a known class carry `class=`.
+use std::collections::{BTreeMap, BTreeSet, HashMap};
+type Id = (u64, u64);
+fn pid(b: &[u8]) -> Option<Id> {
+    let s = std::str::from_utf8(b).ok()?; let (a, c) = s.split_once('-')?;
+    if a.is_empty() || c.is_empty() { return None; }
+    Some((a.parse().ok()?, c.parse().ok()?))
+}
+fn bulks(req: &V) -> Option<Vec<Vec<u8>>> {
+    match req { V::Array(l) => l.iter().map(|x| match x { V::Bulk(b) => Some(b.clone()), _ => None }).collect(), _ => None }
+}
+#[derive(Default, Clone)]
+struct RefGroup {
+    start: Id,                       // entries with id <= start must not be delivered by ">"
+    delivered: BTreeSet<Id>,         // through ">"
+    pending: BTreeMap<Id, Vec<u8>>,  // id -> owner
+    consumers: BTreeSet<Vec<u8>>,
+    noack: bool, setid: bool, reread: bool, uncertain: bool,
+}
+impl RefGroup {
+    fn class(&self) -> &'static str {
+        if self.reread { "class=explicit-id-reread " } else if self.setid { "class=setid-redelivery " } else if self.noack { "class=noack-no-advance " } else { "" }
+    }
+}
+#[derive(Default, Clone)]
+struct RefKey { ids: BTreeSet<Id>, groups: HashMap<Vec<u8>, RefGroup>, known: bool }
+
+pub fn judge(c: &Case, outs: &[Vec<Tok>]) -> Vec<String> {
+    let mut fails = vec![];
+    let mut db: HashMap<Vec<u8>, RefKey> = HashMap::new();
+    for (k, op) in c.ops.iter().enumerate() {
+        if op.is_empty() || tok_bytes(&op[0]) != b"CMD" { continue; }
+        let mut pos = 3;
+        let req = match V::dec(op, &mut pos) { Some(r) => r, None => continue };
+        let out = match outs.get(k) { Some(o) => o, None => continue };
+        let mut p2 = 0;
+        let rep = match V::dec(out, &mut p2) { Some(r) => r, None => continue };
+        let a = match bulks(&req) { Some(a) if !a.is_empty() => a, _ => continue };
+        let name = a[0].to_ascii_uppercase();
+        let up = |x: &Vec<u8>| x.to_ascii_uppercase();
+        let mut fail = |what: String| fails.push(format!("FAIL case={} op={} {}", c.id, k, what));
+        match &name[..] {
+            b"XADD" if a.len() >= 5 => { if let V::Bulk(b) = &rep { if let Some(i) = pid(b) { let e = db.entry(a[1].clone()).or_insert_with(|| RefKey { known: true, ..Default::default() }); e.ids.insert(i); } } }
+            b"XDEL" if a.len() >= 3 => { if let (V::Int(_), Some(e)) = (&rep, db.get_mut(&a[1])) { for x in &a[2..] { if let Some(i) = pid(x) { e.ids.remove(&i); } else { e.known = false; } } } }
+            b"XTRIM" => { if let (V::Int(n), Some(e)) = (&rep, db.get_mut(&a[1])) { for _ in 0..*n { let f = e.ids.iter().next().cloned(); if let Some(f) = f { e.ids.remove(&f); } } } }
+            b"DEL" | b"SET" => { for x in &a[1..] { db.remove(x); } }
+            b"RENAME" if a.len() == 3 => { if let V::Simple(_) = &rep { match db.remove(&a[1]) { Some(s) => { db.insert(a[2].clone(), s); } None => { db.remove(&a[2]); } } } }
+            b"XGROUP" if a.len() >= 4 => {
+                let sub = up(&a[1]);
+                match &sub[..] {
+                    b"CREATE" if a.len() >= 5 => {
+                        if let V::Simple(_) = &rep {
+                            let e = db.entry(a[2].clone()).or_insert_with(|| RefKey { known: true, ..Default::default() });
+                            let start = if a[4] == b"$" { e.ids.iter().next_back().cloned().unwrap_or((0, 0)) } else if a[4] == b"0" { (0, 0) } else { pid(&a[4]).unwrap_or((0, 0)) };
+                            let mut g = RefGroup::default(); g.start = start; g.uncertain = !e.known;
+                            e.groups.insert(a[3].clone(), g);
+                        }
+                    }
+                    b"DESTROY" => { if let (V::Int(1), Some(e)) = (&rep, db.get_mut(&a[2])) { e.groups.remove(&a[3]); } }
+                    b"SETID" if a.len() >= 5 => { if let (V::Simple(_), Some(g)) = (&rep, db.get_mut(&a[2]).and_then(|e| e.groups.get_mut(&a[3]))) { g.setid = true; } }
+                    b"CREATECONSUMER" if a.len() == 5 => { if let (V::Int(n), Some(g)) = (&rep, db.get_mut(&a[2]).and_then(|e| e.groups.get_mut(&a[3]))) {
+                        let fresh = g.consumers.insert(a[4].clone());
+                        if !g.uncertain && (*n == 1) != fresh { fail(format!("{}CREATECONSUMER answered {} for a {} consumer", g.class(), n, if fresh { "new" } else { "known" })); } } }
+                    b"DELCONSUMER" if a.len() == 5 => { if let (V::Int(n), Some(g)) = (&rep, db.get_mut(&a[2]).and_then(|e| e.groups.get_mut(&a[3]))) {
+                        let mine: Vec<Id> = g.pending.iter().filter(|(_, o)| **o == a[4]).map(|(i, _)| *i).collect();
+                        if !g.uncertain && *n != mine.len() as i64 { fail(format!("{}DELCONSUMER answered {} but the consumer owned {} pending entries", g.class(), n, mine.len())); }
+                        for i in mine { g.pending.remove(&i); }
+                        g.consumers.remove(&a[4]); } }
+                    _ => {}
+                }
+            }
+            b"XREADGROUP" if a.len() >= 7 && up(&a[1]) == b"GROUP" => {
+                let (gn, cn) = (a[2].clone(), a[3].clone());
+                let noack = a[4..].iter().any(|x| up(x) == b"NOACK");
+                let sp = match a.iter().position(|x| up(x) == b"STREAMS") { Some(p) => p, None => continue };
+                let rest = &a[sp + 1..]; if rest.is_empty() || rest.len() % 2 != 0 { continue; }
+                let nk = rest.len() / 2;
+                // the same key twice, or an error after earlier keys were served (their entries are
+                // already pending: class xreadgroup-partial-failure): the oracle loses track
+                let dup = (0..nk).any(|i| (0..i).any(|j| rest[i] == rest[j]));
+                if dup || (nk > 1 && matches!(rep, V::Error(_))) {
+                    for j in 0..nk { if let Some(g) = db.get_mut(&rest[j]).and_then(|e| e.groups.get_mut(&gn)) { g.uncertain = true; } }
+                    continue;
+                }
+                if let V::Array(streams) = &rep {
+                    for st in streams {
+                        let (key, entries) = match st { V::Array(p) if p.len() == 2 => match (&p[0], &p[1]) { (V::Bulk(kb), V::Array(es)) => (kb.clone(), es.clone()), _ => continue }, _ => continue };
+                        let idarg = match (0..nk).find(|j| rest[*j] == key) { Some(j) => rest[nk + j].clone(), None => continue };
+                        let ids: Vec<Id> = entries.iter().filter_map(|e| match e { V::Array(p) if p.len() == 2 => match &p[0] { V::Bulk(b) => pid(b), _ => None }, _ => None }).collect();
+                        let g = match db.get_mut(&key).and_then(|e| e.groups.get_mut(&gn)) { Some(g) => g, None => continue };
+                        g.consumers.insert(cn.clone());
+                        if idarg == b">" {
+                            let mut prev: Option<Id> = None;
+                            for i in &ids {
+                                if prev.map_or(false, |p| *i <= p) { fail(format!("{}> delivered IDs out of order", g.class())); }
+                                prev = Some(*i);
+                                if g.delivered.contains(i) { fail(format!("{}entry {:?} delivered a second time through >", g.class(), i)); }
+                                else if *i <= g.start && !g.uncertain { fail(format!("class=group-start-ignored entry {:?} at or before the group's start position {:?} delivered", i, g.start)); }
+                                g.delivered.insert(*i);
+                                if !noack { g.pending.insert(*i, cn.clone()); }
+                            }
+                            if noack { g.noack = true; }
+                        } else {
+                            // history read: must return only entries pending for this consumer
+                            for i in &ids { if g.pending.get(i) != Some(&cn) { g.reread = true; fail(format!("class=explicit-id-reread read with ID {} returned {:?}, which is not pending for the reader", String::from_utf8_lossy(&idarg), i)); break; } }
+                            if !ids.is_empty() && !noack { g.reread = true; }
+                        }
+                    }
+                }
+            }
+            b"XACK" if a.len() >= 4 => {
+                if let (V::Int(n), Some(g)) = (&rep, db.get_mut(&a[1]).and_then(|e| e.groups.get_mut(&a[2]))) {
+                    let ids: Option<Vec<Id>> = a[3..].iter().map(|x| pid(x)).collect();
+                    if let Some(ids) = ids {
+                        let mut cnt = 0; for i in ids { if g.pending.remove(&i).is_some() { cnt += 1; } }
+                        if !g.uncertain && cnt != *n { fail(format!("{}XACK answered {} but {} listed IDs were pending", g.class(), n, cnt)); }
+                    } else { g.uncertain = true; }
+                }
+            }
+            b"XCLAIM" if a.len() >= 6 => {
+                if let (V::Array(l), Some(g)) = (&rep, db.get_mut(&a[1]).and_then(|e| e.groups.get_mut(&a[2]))) {
+                    g.consumers.insert(a[3].clone());
+                    let force = a[5..].iter().any(|x| up(x) == b"FORCE");
+                    let justid = a[5..].iter().any(|x| up(x) == b"JUSTID");
+                    let never = std::str::from_utf8(&a[4]).ok().and_then(|t| t.parse::<u64>().ok()).map_or(false, |m| m >= 1000000);
+                    if a[4] == b"0" || force {
+                        for x in &a[5..] { if let Some(i) = pid(x) { if g.pending.contains_key(&i) { g.pending.insert(i, a[3].clone()); } } }
+                        if justid { for e in l { if let V::Bulk(b) = e { if let Some(i) = pid(b) { if !g.uncertain && g.pending.get(&i) != Some(&a[3]) { fail(format!("{}XCLAIM returned {:?}, which was not pending", g.class(), i)); } } } } }
+                    } else if never {
+                        if !l.is_empty() { fail(format!("{}XCLAIM with an idle threshold of {} ms claimed {} entries", g.class(), String::from_utf8_lossy(&a[4]), l.len())); }
+                    } else { g.uncertain = true; }
+                }
+            }
+            b"XPENDING" if a.len() == 3 => {
+                if let (V::Array(l), Some(g)) = (&rep, db.get(&a[1]).and_then(|e| e.groups.get(&a[2]))) {
+                    if g.uncertain || l.len() != 4 { continue; }
+                    let total = match l[0] { V::Int(n) => n, _ => continue };
+                    let mut want: BTreeMap<Vec<u8>, i64> = BTreeMap::new();
+                    for o in g.pending.values() { *want.entry(o.clone()).or_insert(0) += 1; }
+                    let got: BTreeMap<Vec<u8>, i64> = match &l[3] { V::Array(cs) => cs.iter().filter_map(|x| match x { V::Array(p) if p.len() == 2 => match (&p[0], &p[1]) { (V::Bulk(n), V::Int(c)) => Some((n.clone(), *c)), _ => None }, _ => None }).collect(), _ => continue };
+                    let lo = g.pending.keys().next().cloned(); let hi = g.pending.keys().next_back().cloned();
+                    let b2i = |v: &V| match v { V::Bulk(b) => pid(b), _ => None };
+                    if total != g.pending.len() as i64 || got != want || b2i(&l[1]) != lo || b2i(&l[2]) != hi {
+                        fail(format!("{}XPENDING reports total {} bounds {:?}..{:?} consumers {:?}; the pending set has {} entries, bounds {:?}..{:?}, consumers {:?}", g.class(), total, b2i(&l[1]), b2i(&l[2]),
+                            got.iter().map(|(k, v)| (String::from_utf8_lossy(k).to_string(), *v)).collect::<Vec<_>>(), g.pending.len(), lo, hi,
+                            want.iter().map(|(k, v)| (String::from_utf8_lossy(k).to_string(), *v)).collect::<Vec<_>>()));
+                    }
+                }
+            }
+            b"XINFO" if a.len() == 3 && up(&a[1]) == b"GROUPS" => {
+                if let (V::Array(rows), Some(e)) = (&rep, db.get(&a[2])) {
+                    for row in rows { if let V::Array(r) = row { if r.len() == 8 { if let (V::Bulk(gn), V::Int(nc), V::Int(np)) = (&r[1], &r[3], &r[5]) {
+                        if let Some(g) = e.groups.get(gn) { if !g.uncertain {
+                            if *np != g.pending.len() as i64 { fail(format!("{}XINFO GROUPS pending {} but the pending set has {} entries", g.class(), np, g.pending.len())); }
+                            if *nc != g.consumers.len() as i64 { fail(format!("{}XINFO GROUPS consumers {} but {} consumers exist", g.class(), nc, g.consumers.len())); }
+                        } }
+                    } } } }
+                }
+            }
+            _ => {}
+        }
+    }
+    fails
+}
